@@ -64,7 +64,7 @@ FreshP ==
   /\ bk' = <<>> /\ failUntil' = <<>> /\ pend' = {} /\ skipP' = {} /\ cellOf' = <<>> /\ lastRd' = <<>> /\ built' = <<>>
   /\ cnt' = ZeroCnt
 
-Init == l = 1 /\ cfg = [SyncRead |-> FALSE, BeTTL |-> 0, UpdTTL |-> 0, FailTTL |-> 0, StatOn |-> FALSE] /\ Fresh
+Init == l = 1 /\ cfg = [SyncRead |-> FALSE, BeTTL |-> 0, UpdTTL |-> 0, FailTTL |-> 0, StatOn |-> FALSE, NoOpBe |-> FALSE] /\ Fresh
 
 FoldTTL(c, t) == IF t # 0 /\ (c = 0 \/ c > t) THEN t ELSE c
 
@@ -101,7 +101,7 @@ C04(e) ==
   /\ e.ev = "followup" =>
         /\ e.c = "returned" /\ e.err = "" /\ e.n = 1
         /\ e.v \in At(produced, e.k, {})
-        /\ e.note = "hit:" \o e.v
+        /\ e.note = (IF cfg.NoOpBe THEN "notfound:" ELSE "hit:" \o e.v)   \* the backend holds it (cache.NoOp holds nothing)
   /\ e.ev = "panic" => FALSE
   \* "observes the result of the last completed build": a build's result is stored under the key of its own call
   /\ (e.ev = "beWrite" /\ e.p \in DOMAIN cellOf /\ At(built, e.p, "") = e.v) => e.k = cellOf[e.p].k
@@ -239,7 +239,7 @@ TraceNew ==
   /\ l <= Len(Trace) /\ Ev.ev = "newtrace"
   /\ l' = l + 1
   /\ cfg' = [SyncRead |-> Ev.SyncRead, BeTTL |-> Ev.BeTTL, UpdTTL |-> Ev.UpdTTL, FailTTL |-> Ev.FailTTL,
-             StatOn |-> Ev.StatOn]
+             StatOn |-> Ev.StatOn, NoOpBe |-> Ev.NoOpBe]
   /\ FreshP
 
 TraceNext == TraceEvent \/ TraceNew
